@@ -90,6 +90,9 @@ DiffFields(a, b) == {f \in {"ss", "nk", "ch", "holds", "srv", "lp", "cfg"} : a[f
 Eval(i) ==
   LET rec == Trace[i] IN
   IF rec.k \in {"reset", "end"} THEN TRUE
+  ELSE IF rec.k = "det"
+  THEN (* a history outside the scope of the state predicates: only the replicas' agreement is judged *)
+       IF rec.det = "" THEN TRUE ELSE PrintT(<<"PROP", <<"C01", "ReplicasAgree">>, rec.h, rec.i>>)
   ELSE IF rec.k = "snap"
   THEN (* all replicas were serialized and loaded: the abstract state must be unchanged *)
        LET a == StOf(Trace[i - 1].post)  b == StOf(rec.post) IN
